@@ -253,8 +253,8 @@ mod verif_c20 {
         kani::cover!(p.y == 5 && wl == 6 && wc == p.x as u32);
     }
 
-    /// Quick companion of c20_debug_output_rows with *concrete* cell positions (the symbolic-position form
-    /// does not finish in 30 min): content that does not start in row 0, content in the last row, symbolic
+    /// Companion of c20_debug_output_rows with a *concrete* cell position (the symbolic-position form does not
+    /// finish in 30 min; this one did not finish in 15 min either, so both stay in the thorough tier): content that does not start in row 0, content in the last row, symbolic
     /// colour and symbolic observed output position.
     fn debug_rows_at(p: Point) {
         use core::fmt::Write;
@@ -273,11 +273,79 @@ mod verif_c20 {
         assert!(sink.got == Some(expected));
         kani::cover!(wl == p.y as u32 + 1 && wc == p.x as u32);
     }
-    //@harness prop=C20 kind=bounded tier=quick class=P bound="one touched cell at the concrete position (2,5); symbolic colour and observed character" timeout=900 kani="--no-assertion-reach-checks" fns=src/mock_display/mod.rs::MockDisplay::fmt
+    //@harness prop=C20 kind=bounded tier=thorough class=P bound="one touched cell at the concrete position (2,5); symbolic colour and observed character" timeout=3000 kani="--no-assertion-reach-checks" fns=src/mock_display/mod.rs::MockDisplay::fmt
     #[kani::proof]
     #[kani::unwind(66)]
     fn c20_debug_output_rows_at_2_5() {
         debug_rows_at(Point::new(2, 5));
+    }
+
+    /// eq / diff / affected_area over all 4096 cells, with the touched cells at *concrete* positions (first
+    /// row / last row, last column) and symbolic contents (empty, Off, On) -- the symbolic-position forms
+    /// exceed 14 GB. One harness per function. None of the three finished in 15 min (4098-fold unwinding of
+    /// iterator adaptor chains), so they are thorough-tier attempts like their symbolic-position forms.
+    fn two_cells() -> (Point, Point) {
+        if kani::any() { (Point::new(0, 0), Point::new(63, 63)) } else { (Point::new(3, 5), Point::new(60, 63)) }
+    }
+    fn display_with(p1: Point, c1: Option<BinaryColor>, p2: Point, c2: Option<BinaryColor>) -> MockDisplay<BinaryColor> {
+        let mut d = MockDisplay::<BinaryColor>::new();
+        d.set_pixel(p1, c1);
+        d.set_pixel(p2, c2);
+        d
+    }
+    /// two displays compare equal exactly when all cells agree (flags are not part of the comparison)
+    //@harness prop=C20 kind=bounded tier=thorough class=P bound="two cells at concrete positions (0,0)/(3,5) and (63,63)/(60,63), symbolic contents; all 4096 cells compared" timeout=3000 kani="--no-assertion-reach-checks" fns=src/mock_display/mod.rs::MockDisplay::eq
+    #[kani::proof]
+    #[kani::unwind(4098)]
+    fn c20_eq_concrete_cells() {
+        let (p1, p2) = two_cells();
+        let (a1, a2, b1, b2): (Option<BinaryColor>, Option<BinaryColor>, Option<BinaryColor>, Option<BinaryColor>) = (kani::any(), kani::any(), kani::any(), kani::any());
+        let a = display_with(p1, a1, p2, a2);
+        let mut b = display_with(p1, b1, p2, b2);
+        b.allow_overdraw = kani::any();
+        assert!((a == b) == (a1 == b1 && a2 == b2));
+        kani::cover!(a1 == b1 && a2 != b2);
+        kani::cover!(a == b);
+    }
+    /// diff is empty exactly where the cells agree and uses GREEN / RED / BLUE as documented
+    //@harness prop=C20 kind=bounded tier=thorough class=P bound="two cells at concrete positions, symbolic contents; all 4096 cells visited" timeout=3000 kani="--no-assertion-reach-checks" fns=src/mock_display/mod.rs::MockDisplay::diff
+    #[kani::proof]
+    #[kani::unwind(4098)]
+    fn c20_diff_concrete_cells() {
+        let (p1, p2) = two_cells();
+        let (a1, a2, b1, b2): (Option<BinaryColor>, Option<BinaryColor>, Option<BinaryColor>, Option<BinaryColor>) = (kani::any(), kani::any(), kani::any(), kani::any());
+        let a = display_with(p1, a1, p2, a2);
+        let b = display_with(p1, b1, p2, b2);
+        let df = a.diff(&b);
+        let expect = |x: Option<BinaryColor>, y: Option<BinaryColor>| match (x, y) {
+            (Some(_), None) => Some(Rgb888::GREEN),
+            (None, Some(_)) => Some(Rgb888::RED),
+            (Some(s), Some(o)) if s != o => Some(Rgb888::BLUE),
+            _ => None,
+        };
+        assert!(df.get_pixel(p1) == expect(a1, b1) && df.get_pixel(p2) == expect(a2, b2));
+        let q: Point = kani::any();
+        kani::assume(inside(q) && q != p1 && q != p2);
+        assert!(df.get_pixel(q).is_none());
+        kani::cover!(expect(a1, b1) == Some(Rgb888::BLUE));
+    }
+    /// affected_area is the tight bounding box of the set cells
+    //@harness prop=C20 kind=bounded tier=thorough class=P bound="two cells at concrete positions, symbolic contents; all 4096 cells folded" timeout=3000 kani="--no-assertion-reach-checks" fns=src/mock_display/mod.rs::MockDisplay::affected_area
+    #[kani::proof]
+    #[kani::unwind(4098)]
+    fn c20_affected_area_concrete_cells() {
+        let (p1, p2) = two_cells();
+        let (a1, a2): (Option<BinaryColor>, Option<BinaryColor>) = (kani::any(), kani::any());
+        let a = display_with(p1, a1, p2, a2);
+        let area = a.affected_area();
+        let want = match (a1.is_some(), a2.is_some()) {
+            (false, false) => Rectangle::zero(),
+            (true, false) => Rectangle::new(p1, Size::new(1, 1)),
+            (false, true) => Rectangle::new(p2, Size::new(1, 1)),
+            (true, true) => Rectangle::new(p1, Size::new((p2.x - p1.x) as u32 + 1, (p2.y - p1.y) as u32 + 1)),
+        };
+        assert!(area == want);
+        kani::cover!(a1.is_some() && a2.is_some() && p1.x == 3);
     }
 
     //@harness prop=C20 kind=canary tier=quick class=I expect=fail
